@@ -113,9 +113,86 @@ theorem C06_effective_compose (S : Schema α) (f g : PT α) (c : Nat) (h : PT.St
     PT.StSound StNE [] (PT.composeS S f g c).1 :=
   PT.stSound_composeS StNE stNE_indeterminate S f g c [] h
 
+/-- the same for the pruned composition and the pruning arithmetic operators, whatever the `explore` filter decides -/
+theorem C06_effective_compose_prune {σ : Type} (S : Schema α) (ex : Explore σ α) (n : Nat) (f g : PT α) (s : σ)
+    (c : Nat) (h : PT.StSound StNE [] f) : PT.StSound StNE [] (PT.composeP S ex n [] f g s c).1 :=
+  PT.stSound_composeP StNE stNE_indeterminate S ex n [] f g s c h
+
 theorem C06_effective_apply_func (t : PT α) (a : Aff α) (h : PT.StSound StNE [] t) :
     PT.StSound StNE [] (PT.applyFunc t a) :=
   PT.stSound_mapTerminals StNE _ t [] h
+
+/-- `reduce` and planted witnesses keep the extra clauses as well -/
+theorem C06_effective_reduce (t : PT α) (h : PT.StSound StNE [] t) : PT.StSound StNE [] (PT.reduce t) :=
+  PT.stSound_reduceAux StNE stNE_pred true t [] h
+
+theorem C06_effective_plant (t : PT α) (idx : Nat) (pts : List (List α)) (h : PT.StSound StNE [] t) :
+    PT.StSound StNE [] (PT.plant t idx pts) :=
+  PT.stSound_plant StNE stNE_plant pts [] t idx h
+
+/-- a history step as in C05 (`CStep`), where the oracles of a sweep also satisfy the two extra contracts -/
+inductive EStep (tol : α) (n : Nat) : Nat → PT α → Nat → PT α → Prop where
+  | applyFunc (m : Nat) (t : PT α) (a : Aff α) (ha : a.WF) (hm : a.indim = m) :
+      EStep tol n m t a.outdim (PT.applyFunc t a)
+  | scalar (m : Nat) (t : PT α) (φ : Aff α → Aff α)
+      (hφ : ∀ a : Aff α, a.WF → a.indim = n → a.outdim = m → (φ a).WF ∧ (φ a).indim = n ∧ (φ a).outdim = m) :
+      EStep tol n m t m (PT.mapTerminals φ t)
+  | compose (m p : Nat) (t g : PT α) (c : Nat) (hg : PT.Shaped 2 m p g) :
+      EStep tol n m t p (PT.composeS Schema.compose t g c).1
+  | composePrune {σ : Type} (m p : Nat) (t g : PT α) (ex : Explore σ α) (s : σ) (c : Nat) (hg : PT.Shaped 2 m p g) :
+      EStep tol n m t p (PT.composeP Schema.compose ex n [] t g s c).1
+  | arith {σ : Type} (m : Nat) (t g : PT α) (op : ArithOp) (ex : Explore σ α) (s : σ) (c : Nat)
+      (hg : PT.Shaped 2 n m g) : EStep tol n m t m (PT.composeP (Schema.arith op.onAff) ex n [] t g s c).1
+  | elim {σ : Type} (m : Nat) (t : PT α) (O : Oracles σ α) (s : σ) (hlp : InfeasibleSound O.lp)
+      (hmi : MirrorSound tol O.mirror) (hmn : MirrorNonempty O.mirror) (hub : UnboundedNonempty O.lp) :
+      EStep tol n m t m (infeasibleElimination tol O n t s).1
+  | reduce (m : Nat) (t : PT α) : EStep tol n m t m (PT.reduce t)
+  | plant (m : Nat) (t : PT α) (idx : Nat) (pts : List (List α))
+      (hp : ∀ q ∈ PT.hitPaths t idx [], ∀ w ∈ pts, InPathTol tol q w) : EStep tol n m t m (PT.plant t idx pts)
+
+theorem EStep.toCStep (tol : α) (n m m' : Nat) (t t' : PT α) (st : EStep tol n m t m' t') : CStep tol n m t m' t' := by
+  cases st with
+  | applyFunc _ _ a ha hm => exact .applyFunc _ _ a ha hm
+  | scalar _ _ φ hφ => exact .scalar _ _ φ hφ
+  | compose _ _ _ g c hg => exact .compose _ _ _ g c hg
+  | composePrune _ _ _ g ex s c hg => exact .composePrune _ _ _ g ex s c hg
+  | arith _ _ g op ex s c hg => exact .arith _ _ g op ex s c hg
+  | elim _ _ O s hlp hmi _ _ => exact .elim _ _ O s hlp hmi
+  | reduce => exact .reduce _ _
+  | plant _ _ idx pts hp => exact .plant _ _ idx pts hp
+
+/-- one step keeps the cache invariant of C05 together with the two extra clauses -/
+theorem C06_effective_step (tol : α) (n m m' : Nat) (t t' : PT α) (h : CacheOK tol n m t)
+    (hne : PT.StSound StNE [] t) (st : EStep tol n m t m' t') : CacheOK tol n m' t' ∧ PT.StSound StNE [] t' := by
+  refine ⟨C05_step tol n m m' t t' h (EStep.toCStep tol n m m' t t' st), ?_⟩
+  cases st with
+  | applyFunc _ _ a ha hm => exact C06_effective_apply_func t a hne
+  | scalar _ _ φ hφ => exact PT.stSound_mapTerminals StNE φ t [] hne
+  | compose _ _ _ g c hg => exact C06_effective_compose _ t g c hne
+  | composePrune _ _ _ g ex s c hg => exact C06_effective_compose_prune _ ex n t g s c hne
+  | arith _ _ g op ex s c hg => exact C06_effective_compose_prune _ ex n t g s c hne
+  | elim _ _ O s hlp hmi hmn hub => exact C06_effective_caches_kept tol O hmn hub n m t s h.1 hne
+  | reduce => exact C06_effective_reduce t hne
+  | plant _ _ idx pts hp => exact C06_effective_plant t idx pts hne
+
+inductive ESteps (tol : α) (n : Nat) : Nat → PT α → Nat → PT α → Prop where
+  | nil (m : Nat) (t : PT α) : ESteps tol n m t m t
+  | cons (m m' m'' : Nat) (t t' t'' : PT α) : EStep tol n m t m' t' → ESteps tol n m' t' m'' t'' → ESteps tol n m t m'' t''
+
+/-- every history over the eight step kinds of C05 — apply_func, scalar forms, un-pruned and pruned composition, the
+    arithmetic operators, sweeps, reduce, planted witnesses, in any order and number — leads to a tree on which the
+    next sweep is effective (with a decisive solver): the compose / eliminate / compose / eliminate pipelines of the
+    property and everything around them -/
+theorem C06_effective_history {σ : Type} (tol : α) (htol : 0 ≤ tol) (n m m' : Nat) (t t' : PT α)
+    (h : CacheOK tol n m t) (hne : PT.StSound StNE [] t) (hs : ESteps tol n m t m' t')
+    (O : Oracles σ α) (hd : Decisive tol O) (hlp : InfeasibleSound O.lp) (hm : MirrorSound tol O.mirror)
+    (hmn : MirrorNonempty O.mirror) (hub : UnboundedNonempty O.lp) (s : σ) :
+    PT.Effective tol [] (infeasibleElimination tol O n t' s).1 := by
+  induction hs with
+  | nil m t => exact C06_effective tol htol O hd hlp hm hmn hub n m t s h hne
+  | cons m m' m'' t t' t'' st _ ih =>
+    obtain ⟨h', hne'⟩ := C06_effective_step tol n m m' t t' h hne st
+    exact ih h' hne'
 
 /-- the terminal an input reaches keeps its arena index and its map -/
 theorem C06_reached_terminal_kept {σ : Type} (tol : α) (O : Oracles σ α) (hlp : InfeasibleSound O.lp)
@@ -167,6 +244,13 @@ theorem C06_terminal_count_bounds {σ : Type} (tol : α) (O : Oracles σ α) (hl
     the ReLU tree, so its swept version has exactly two terminals whatever the solver does -/
 example : (∀ x ∈ [[(3 : Rat)], [-2]], (PT.findTerminal exRelu x).isSome) ∧
     ([[(3 : Rat)], [-2]].map (fun x => (PT.findTerminal exRelu x).map (·.1))).Nodup := by decide +kernel
+
+/-- non-vacuity of the tree hypotheses of `C06_effective`: the fresh ReLU tree carries the cache invariant and the two
+    extra clauses -/
+example (tol : Rat) : CacheOK tol 1 1 exRelu ∧ PT.StSound StNE [] exRelu :=
+  have hf : PT.Fresh exRelu := by simp [exRelu, PT.Fresh, PKids.Fresh]
+  ⟨C05_fresh tol 1 1 exRelu (by simp [exRelu, PT.Shaped, PKids.Shaped, Aff.WF, IKids.allNone, IKids.length, Aff.outdim]) hf,
+   C06_effective_fresh exRelu hf⟩
 
 /-- non-vacuity of the solver hypotheses of `C06_effective`: the exact decision procedure ("unbounded" for a non-empty
     set — the objective of the feasibility question is constant —, "infeasible" for an empty one; classical, not
